@@ -225,13 +225,28 @@ Inductive IOcase :=
 | PrepTg (blanks : bool) (mn mx : option Z) (thr : option (Z * Z)) (g : dtg) (out : res dtg)
 | SaveText (long blanks : bool) (mn mx : option Z) (thr : option (Z * Z)) (tab : numtab) (g : dtg) (out : res text)
 | ParseText (includeEmpty : bool) (data : text) (out : res rtg)
+(* tier- and textgrid-level numbers are converted by the reader: they are compared
+   through a table token -> canonical form of its value, supplied by the harness *)
+| ParseTextN (includeEmpty : bool) (data : text) (canon : list (text * text)) (out : res rtg)
 | RefRead (tab : numtab) (g : dtg) (data : text).           (* g = prepared data; data = text the implementation wrote *)
+
+Fixpoint canon_lookup (tab : list (text * text)) (k : text) : text :=
+  match tab with
+  | [] => k
+  | (a, b) :: tab' => if text_eqb a k then b else canon_lookup tab' k
+  end.
+Definition canon_rtg (tab : list (text * text)) (g : rtg) : rtg :=
+  mkRTG (canon_lookup tab (rg_xmin g)) (canon_lookup tab (rg_xmax g))
+        (map (fun t => mkRT (r_isint t) (r_name t) (canon_lookup tab (r_xmin t)) (canon_lookup tab (r_xmax t)) (r_ents t))
+             (rg_tiers g)).
 
 Definition IOcorr (c : IOcase) : bool :=
   match c with
   | PrepTg b mn mx th g out => res_eqb dtg_eqb (prep_tg b mn mx th g) out
   | SaveText lg b mn mx th tab g out => res_eqb text_eqb (save_text lg b mn mx th tab g) out
   | ParseText ie data out => res_eqb rtg_eqb (parse_text POINT_MARK_UNDOUBLED ie data) out
+  | ParseTextN ie data tab out =>
+      res_eqb rtg_eqb (do g <- parse_text POINT_MARK_UNDOUBLED ie data; Ok (canon_rtg tab g)) out
   | RefRead _ _ _ => true
   end.
 
